@@ -97,6 +97,7 @@ var defaultServers = NewServers(nil)
 const (
 	headerAge         = "Age"
 	headerCacheStatus = "X-Status"
+	headerRange       = "Range"
 )
 
 var (
